@@ -104,6 +104,34 @@ def sanitizer_check(res):
             _baseline[k] = now.get(k)
 
 
+STATE_PARAMS = {"state", "state_record_list", "cost_list", "assigned_task_list", "assigned_task_id_record",
+                "allocated_worker_list", "allocated_worker_id_record", "allocated_facility_list",
+                "allocated_facility_id_record", "placed_workplace", "placed_workplace_id_record",
+                "placed_component_list", "placed_component_id_record", "est", "eft", "lst", "lft",
+                "remaining_work_amount", "remaining_work_amount_record_list", "time", "simulation_mode", "status",
+                "additional_task_flag", "actual_work_amount", "error", "critical_path_length",
+                "parent_workflow", "parent_product", "product", "organization", "workflow"}
+
+
+def config_snapshot(project):
+    """Every constructor parameter (runtime reflection) that is model *configuration*, not run state:
+    a simulation must leave it exactly as it was (values and order of lists)."""
+    import inspect
+    from .p_c15 import objects_of, norm
+    snap = {}
+    for label, o in objects_of(project):
+        try:
+            params = list(inspect.signature(type(o).__init__).parameters)[1:]
+        except (TypeError, ValueError):
+            continue
+        for prm in params:
+            if prm in STATE_PARAMS or (label == "project" and prm in ("absence_time_list", "perform_auto_task_while_absence_time")):
+                continue
+            if hasattr(o, prm) and not callable(getattr(o, prm)):
+                snap["%s.%s" % (label, prm)] = norm(getattr(o, prm))
+    return snap
+
+
 # ---------------------------------------------------------------------------------------
 def make_case(prop, seed, i, tier):
     rng = rng_for(prop, seed, i)
@@ -229,6 +257,24 @@ def run_case(case):
     m, d = run_dump(spec, I.default_order(spec), share_ids=True)
     res.count("C09.shared_id_string_runs")
     compare(res, base, d, "C09/depends-on-id-string-identity", "ID strings shared instead of equal-but-distinct objects")
+    # (f) a simulation leaves the model's configuration untouched (no hidden state in the model itself)
+    I.set_order(I.default_order(spec))
+    mc = B.build(spec)
+    before = config_snapshot(mc.project)
+    with warnings.catch_warnings():
+        warnings.simplefilter("ignore")
+        try:
+            mc.project.simulate(**sim_kwargs(spec))
+        except Exception:
+            pass
+    after = config_snapshot(mc.project)
+    res.count("C09.configuration_values_compared", len(before))
+    for k in sorted(before):
+        if before[k] != after.get(k):
+            cls_prm = k.split(".", 1)[1]
+            res.violate("C09", "C09/hidden-state:simulate-changed-model-configuration:%s" % cls_prm,
+                        "simulate() changed the model parameter %s: %r -> %r" % (k, before[k], after.get(k)))
+            break
     # (d) simulate() called again on the same object
     I.set_order(I.default_order(spec))
     with warnings.catch_warnings():
